@@ -582,7 +582,7 @@ impl<'a> GeneratorState<'a> {
                 Ok(ExprType::Y)
             },
             ExprType::Absolute(variable, eight_bits, offset) => {
-                let v = self.compiler_state.get_variable(variable);
+                let v = self.variable_or_error(variable, pos)?;
                 let superchip;
                 let use_inc = match v.memory {
 #[cfg(feature = "atari2600")]
@@ -648,7 +648,7 @@ impl<'a> GeneratorState<'a> {
                 }
             },
             ExprType::AbsoluteX(variable) => {
-                let v = self.compiler_state.get_variable(variable);
+                let v = self.variable_or_error(variable, pos)?;
                 let superchip;
                 let use_inc = match v.memory {
 #[cfg(feature = "atari2600")]
@@ -714,7 +714,7 @@ impl<'a> GeneratorState<'a> {
                 }
             },
             ExprType::AbsoluteY(variable) => {
-                let v = self.compiler_state.get_variable(variable);
+                let v = self.variable_or_error(variable, pos)?;
                 let op = if plusplus { Operation::Add(false) } else { Operation::Sub(false) };
                 let right = ExprType::Immediate(1);
                 let newright = self.generate_arithm(expr_type, &op, &right, pos, false)?;
